@@ -307,6 +307,14 @@ def run(ctx):
     except Skip:
         pass
 
+    # ---- the ignore-files stage that check_event consults first (tables shared with C03)
+    try:
+        from . import c03 as _c03c
+        _c03c.consumers(ctx, "R11.1", only="IgnoreFilterer::check_event")
+        _c03c.builders_stay(ctx, "R11.3")
+    except Skip:
+        pass
+
     # ---- R11.4 CLI layer
     try:
         WF = "watchexec_cli::filterer::WatchexecFilterer"
